@@ -124,6 +124,42 @@ func runC06(c *kit.Ctx) {
 		})
 	}
 
+	// fragments are split into different rows only when their row keys differ
+	if co := c.Anchor("", "scanner", "coalesce"); co != nil {
+		n := 0
+		kit.Instrs(co, func(in ssa.Instruction) {
+			r, ok := in.(*ssa.Return)
+			if !ok || len(r.Results) != 2 {
+				return
+			}
+			k, isC := r.Results[1].(*ssa.Const)
+			if !isC || k.Value == nil || k.Value.ExactString() != "false" {
+				return
+			}
+			// the early return for an already complete result
+			complete := false
+			rowsDiffer := false
+			for _, f := range kit.FactsAt(r.Block()) {
+				if call, ok := f.Cond.(*ssa.Call); ok {
+					if !f.Pol && strings.HasSuffix(kit.CalleeName(call), "pb.Result).GetPartial") && call.Call.Args[0] == ssa.Value(co.Params[1]) {
+						complete = true
+					}
+					if !f.Pol && kit.CalleeName(call) == "bytes.Equal" {
+						rowsDiffer = true
+					}
+				}
+			}
+			if complete {
+				return
+			}
+			n++
+			c.Check(rowsDiffer, co, "new-row-only-if-keys-differ", r.Pos(), "a pending partial row is closed without the next fragment only when the fragment's row key differs", "coalesce can refuse to merge a fragment for a reason other than a different row key: the last fragment of a split row is returned as a row of its own")
+		})
+		if n == 0 {
+			c.Unk(co, "new-row", co.Pos(), "coalesce no longer has a 'new row' exit")
+		}
+	}
+
 	// ---- R3 ---------------------------------------------------------------
 	c.StartRule("R3", "open/continue request provenance", 3)
 	{
@@ -250,5 +286,23 @@ func runC06(c *kit.Ctx) {
 		if n == 0 {
 			c.Unk(upd, "next-start-row", upd.Pos(), "scanner.update no longer sets the next start row")
 		}
+		// reversed scans: decrementing the last byte of the region start key must not wrap
+		kit.Instrs(upd, func(in ssa.Instruction) {
+			bo, ok := in.(*ssa.BinOp)
+			if !ok || bo.Op != token.SUB || bo.Type().String() != "byte" && bo.Type().String() != "uint8" {
+				return
+			}
+			guarded := false
+			for _, f := range kit.FactsAt(bo.Block()) {
+				cmp, ok := kit.CanonCmp(f.Cond, f.Pol)
+				if !ok || cmp.Op != token.NEQ {
+					continue
+				}
+				if k, ok := kit.ConstInt(cmp.Y); ok && k == 0 && (cmp.X.Type().String() == "byte" || cmp.X.Type().String() == "uint8") {
+					guarded = true
+				}
+			}
+			c.Check(guarded, upd, "byte-decrement-guarded", bo.Pos(), "the last byte is decremented only on the edge where it is not 0x00 (otherwise the key is shortened)", "the last byte of the region start key is decremented without excluding 0x00: it wraps to 0xff and the next start row lies beyond the region boundary (rows repeat, the scan does not end)")
+		})
 	}
 }
